@@ -1,12 +1,73 @@
-"""C17 — date-time, duration and time-of-day arithmetic obeys its inverse laws. Engine K (reachable part)."""
+"""C17 — date-time, duration and time-of-day arithmetic obeys its inverse laws. Engine K (the part Kani can reach)."""
 import kani_engine
 
-RULE = ("one Kani harness per law; operands are kani::any() over the stated ranges; a harness is non-trivial when all "
-        "its kani::cover! witnesses are SATISFIED")
+RULE = ("one Kani harness per law (and per block of seconds of the day for the Time <-> calendar laws); operands are "
+        "kani::any() over the stated ranges; a harness is non-trivial when all its kani::cover! witnesses are SATISFIED")
+
+MANIFEST = {
+    "engine": "K",
+    "technique": "bounded model checking (Kani/CBMC, SAT) of tea-time's Time constructors/getters, Time +- TimeDelta and the "
+                 "TimeDelta operators with chrono::Duration's (secs, nanos) arithmetic executed for real; month dispatch with "
+                 "chrono's checked_add_months/checked_sub_months replaced by recorders",
+    "design_ref": "DESIGN.md 3/C17",
+    "level_text": "CBMC decides: (1) TimeDelta +, -, unary -, * i32 satisfy a+b-b=a, a-b+b=a, a-b=a+(-b), a+(-a)=0, -(-a)=a, a+0=a, "
+                  "associativity and commutativity for all |months|<=1200, |secs|<=2^40 (2^50 thorough) and every sub-second part; "
+                  "their results are the exact normal-form values (sum/difference/negation with carry, a*k for |k|<=8 and |secs|<=2^20 "
+                  "as secs*k + floor(nanos*k/1e9), (nanos*k) mod 1e9); direct distributivity (a+b)*k=a*k+b*k for |k|<=8 on |secs|<=64 "
+                  "with sub-second part 0 or 0.5 s (thorough: whole seconds up to 2^20); "
+                  "(2) all five Time constructors build (h*3600+m*60+s)*1e9+sub for every in-range component; a time built from "
+                  "(h,m,s,nano) reports exactly these through hour()/minute()/second()/nanosecond(), Time->NaiveTime->Time and "
+                  "NaiveTime->Time->NaiveTime are identities — for every nanosecond of the first and the last 2048 seconds of the day "
+                  "(thorough: the whole day in twelve 2-hour blocks); "
+                  "(3) Time +- month-free TimeDelta is exact i64 nanosecond arithmetic for every time of day, |duration| <= 86400 s "
+                  "(every sub-second part, both signs) whenever the result is inside the day, and (t+d)-d = t, (t-d)+d = t; "
+                  "(4) DateTime<U> +- TimeDelta with months != 0 makes exactly one chrono Months call, forward shifts add and backward "
+                  "shifts subtract |months|, for every non-zero valid i32 month count (one concrete instant per unit); "
+                  "counterexamples are replayed natively",
+    "level_note": "trusted: Kani's MIR->goto translation, CBMC, CaDiCaL; chrono::Duration's documented meaning (secs*1e9+nanos, "
+                  "0<=nanos<1e9). DateTime +- TimeDelta, DateTime - DateTime with valid operands, month clamping and duration_trunc "
+                  "go through chrono's calendar conversion and are outside this engine's claim",
+}
 
 
 def check(v, tier, opts):
+    v.functions.update([
+        "tea_time::Time::{from_hms,from_hms_milli,from_hms_micro,from_hms_nano,from_num_seconds_from_midnight,as_cr,from_cr}",
+        "<tea_time::Time as chrono::Timelike>::{hour,minute,second,nanosecond}",
+        "<Time as Add<TimeDelta>>::add, <Time as Sub<TimeDelta>>::sub",
+        "<TimeDelta as Add>::add, <TimeDelta as Sub>::sub, <TimeDelta as Neg>::neg, <TimeDelta as Mul<i32>>::mul",
+        "month dispatch branch of <DateTime<U> as Add<TimeDelta>>::add / <DateTime<U> as Sub<TimeDelta>>::sub (4 units)",
+        "chrono::TimeDelta::{new,checked_add,checked_sub,checked_mul,neg,num_seconds,subsec_nanos,num_nanoseconds} (executed, not stubbed)",
+    ])
+    v.bounds.append("TimeDelta group laws: |months| <= 1200, |secs| <= 2^40 quick / 2^50 thorough, 0 <= nanos < 1e9 (all)")
+    v.bounds.append("TimeDelta * k: |k| <= 8, |secs| <= 2^20 (value law); direct distributivity |secs| <= 64 with sub-second "
+                    "part in {0, 0.5 s} (quick), plus whole seconds |secs| <= 2^20 (thorough)")
+    v.bounds.append("Time constructors: every h<24, m<60, s<60 and every in-range milli/micro/nano part (value laws, whole day)")
+    v.bounds.append("Time getters and NaiveTime round trips: every nanosecond of seconds-of-day 0..2048 and 84352..86400 (quick); "
+                    "whole day in twelve 2-hour blocks (thorough) — SAT cost of the division by 1e9 grows with the number of seconds")
+    v.bounds.append("Time +- TimeDelta: every time of day 0..86400 s (every ns), month-free durations with |secs| <= 86400 and every "
+                    "sub-second part, asserted when the exact result lies inside the day")
+    v.bounds.append("month dispatch: months any i32 except 0 and i32::MIN (NaT); instant concrete (one per unit, two of them before "
+                    "1970), sub-month part zero")
+    v.assumptions.append("oracle shape: a duration's length is written with one multiplication by 1e9 of the same shape chrono uses "
+                         "((secs+1)*1e9 - (1e9-nanos) for negative fractional durations = secs*1e9 + nanos); SAT cannot prove the "
+                         "constant multiplier distributive (pure lemma: no answer in 300 s)")
+    v.assumptions.append("a*k value law + a+b value law + uniqueness of the normal form (0 <= nanos < 1e9) imply distributivity for the "
+                         "wide operand range; only the small-domain direct form is decided by the solver")
+    v.stubs.add("chrono::DateTime::checked_add_months / checked_sub_months -> recorders returning the date-time unchanged "
+                "(c17_month_dispatch_* only)")
+    v.outside.append("DateTime<U> + TimeDelta, DateTime<U> - TimeDelta (t + d - d == t) and DateTime<U> - DateTime<U> ((a - b) + b == a) "
+                     "with valid operands, all four units, month-free or not: impl_ops.rs lines 9-86 convert through "
+                     "chrono::DateTime<Utc> (self.as_cr() -> TryFrom -> from_timestamp*/from_timestamp_nanos, `+ Months`, "
+                     "`+ Duration`, `dt1 - dt2`, `.into()` -> timestamp*()) — chrono's calendar conversion gave no solver answer "
+                     "in 40-55 min (DESIGN 1.1); no unit has a pure-i64 implementation. Only their NaT paths (C16 c16_natop_*) "
+                     "and the month-sign dispatch are decided here")
+    v.outside.append("adding calendar months agrees with the calendar library (end-of-month clamping): chrono's Months arithmetic itself")
+    v.outside.append("DateTime::duration_trunc (month arithmetic + chrono::DurationRound) — only its NaT path is decided (C16)")
+    v.outside.append("TimeDelta / TimeDelta -> i32 (not in the statement; panics by design on NaT or mismatching month/time quotients)")
+    v.outside.append("Time values outside 0..86400 s: Time +- TimeDelta neither wraps nor saturates nor yields NaT (plain i64 "
+                     "addition); as_cr() of such a value is None and the Timelike getters panic — witnessed, no law asserted")
+    v.outside.append("durations with every combination of the ten textual units: TimeDelta::parse belongs to C18; operands here are "
+                     "built from (months, secs, nanos) directly")
     kani_engine.decide(v, "C17", tier, opts)
     return v.finish(RULE)
-
-MANIFEST = {}
